@@ -341,7 +341,13 @@ func runAtomic(r *runner) *engine.Outcome {
 	out.Distinct = map[string][]string{"crash-state": cs}
 	out.Sample = map[string]any{
 		"part": "B", "backend": backend, "has_old": hasOld, "writers": nWriters, "readers": nReaders, "method": method,
-		"target": target, "new_sizes": func() []int { v := []int{}; for _, n := range news { v = append(v, len(n)) }; return v }(),
+		"target": target, "new_sizes": func() []int {
+			v := []int{}
+			for _, n := range news {
+				v = append(v, len(n))
+			}
+			return v
+		}(),
 		"crash_points": crashPoints, "faults": s.Faults,
 	}
 	return out
